@@ -1245,6 +1245,16 @@ PPL::Grid::add_constraints(const Constraint_System& cs) {
   if (space_dim < cs.space_dimension()) {
     throw_dimension_incompatible("add_constraints(cs)", "cs", cs);
   }
+  // Non-trivial inequality constraints are not allowed: check all of
+  // them first (also when the grid is empty), so that a rejected call
+  // leaves the grid unchanged.
+  for (Constraint_System::const_iterator i = cs.begin(),
+         cs_end = cs.end(); i != cs_end; ++i) {
+    if (i->is_inequality() && !i->is_inconsistent()
+        && !i->is_tautological()) {
+      throw_invalid_constraints("add_constraints(cs)", "cs");
+    }
+  }
   if (marked_empty()) {
     return;
   }
